@@ -83,6 +83,11 @@ const (
 
 // Parse takes a data uri string or filename and converts it to Favicon.
 func Parse(s string) (Favicon, error) {
+	if s == "" {
+		// The favicon is optional: an empty value means "no favicon" and is what an
+		// unset favicon serializes to, so it must load again.
+		return "", nil
+	}
 	if strings.HasPrefix(s, dataImagePrefix) {
 		return Favicon(s), nil
 	}
